@@ -74,6 +74,8 @@ def subterms(t):
     st = [t]
     while st:
         x = st.pop()
+        if isinstance(x, tuple) and not x:
+            continue
         yield x
         if isinstance(x, tuple):
             for y in x:
@@ -158,6 +160,9 @@ class Facts:
                 return k == "eq"
         if k == "lt":
             a, b = atom[1], atom[2]
+            # checked unsigned subtraction never exceeds its minuend: !(a < a - x)
+            if isinstance(b, tuple) and b[0] == "bin" and b[1] == "Sub" and b[2] == a:
+                return False
             # unsigned: nothing is below 0  (all compared quantities here are unsigned or lengths;
             # signed comparisons against 0 only occur on bracket counters, handled syntactically)
             if is_int(b) and b[1] == 0 and not _maybe_signed(a):
@@ -441,6 +446,9 @@ def prove_zero(form, facts, extra_eqs=(), depth=0):
             f2.order.append((atom, pol))
         form2 = subst_affine(form, mm, val)
         eqs2 = [subst_affine(e, mm, val) for e in extra_eqs]
+        if pol is False and lt is False:
+            # a <= b assumed and a >= b known: a == b
+            eqs2.append(affine(a).add(affine(b), -1))
         f3 = _subst_facts(f2, mm, val)
         ok, why = prove_zero(form2, f3, eqs2, depth + 1)
         if not ok:
